@@ -1,7 +1,7 @@
 #!/bin/bash
 # usage: tools/seed_ingest.sh <ID> [check-id ...]   — verifies and stores an independently produced seeded change from /tmp/seed-<ID>
 set -u
-id=$1; shift; checks=${@:-$id}
+id=$1; shift; base=$(echo $id | sed "s/[a-z]*$//"); checks=${@:-$base}
 wt=/tmp/seed-$id; dst=/verif/seeded/$id
 [ -f $wt/patch.diff ] || { echo "no patch in $wt"; exit 3; }
 mkdir -p $dst; cp $wt/patch.diff $dst/patch.diff; cp $wt/meta.json $dst/meta.agent.json 2>/dev/null; cp $wt/demo_test.go.txt $dst/ 2>/dev/null
@@ -28,7 +28,7 @@ import json
 m={}
 try: m=json.load(open("$dst/meta.agent.json"))
 except Exception: pass
-m.update({"property":"$id","demo_rc_unpatched":$r0,"demo_rc_patched":$r1,"confirmed":($r0==0 and $r1!=0),"checks_run":"$res".strip(),
+m.update({"property":"$base","round":"$id","demo_rc_unpatched":$r0,"demo_rc_patched":$r1,"confirmed":($r0==0 and $r1!=0),"checks_run":"$res".strip(),
  "what_i_ran":"demo with and without patch.diff in a scratch worktree; ./check <id> --repo <worktree> (quick, then thorough if quick passed)"})
 json.dump(m,open("$dst/meta.json","w"),indent=1)
 PY
